@@ -2103,6 +2103,9 @@ class unyt_array(np.ndarray):
         if unit is None:
             out_arr = np.array(out_arr, copy=_COPY_IF_NEEDED)
         elif ufunc in (modf, divmod_):
+            if issubclass(ret_class, unyt_quantity) and out_arr[0].shape != ():
+                # a scalar quantity broadcast into larger out= arrays
+                ret_class = unyt_array
             out_arr = tuple(ret_class(o, unit) for o in out_arr)
         elif out_arr.shape == ():
             out_arr = unyt_quantity(np.asarray(out_arr), unit)
